@@ -26,7 +26,7 @@ func init() {
 		Assumptions: []string{
 			"the peer's stream ids are the ones it puts on the wire (no claim about a hostile peer re-using ids)",
 		},
-		Rules: []Rule{
+		Rules: append([]Rule{
 			{ID: "C02.R1", Doc: "HandlePacket: all effects behind pkt.ID.Stream == s.id.Stream and !term.IsSet()", Run: c02r1},
 			{ID: "C02.R2", Doc: "manageReader dispatch: deliver only to the matching current stream; later effects only for ids not below the current stream", Run: c02r2},
 			{ID: "C02.R3", Doc: "stream constructors: newStream only after acquireSemaphore == nil; semaphore acquired and previous stream finished before nil is returned", Run: c02r3},
@@ -42,7 +42,8 @@ func init() {
 			{ID: "C02.S5", Doc: "the connection reader's buffer is lent to one decoder at a time: a packet handed out by packetBuffer.Get is marked held until Done, and Put/Close wait for it (otherwise the next stream's bytes overwrite a message still being decoded)", Alias: "C01.R4"},
 			{ID: "C02.S7", Doc: "bytes of an abandoned call's unfinished packet are discarded before the next call's packet is measured against the size limit", Alias: "C09.R4"},
 			{ID: "C02.S6", Doc: "the reader waits only for the stream of an invoke it forwarded: a packet of an abandoned call (metadata or cancel without invoke) is dropped instead of being held for, and delivered to, the next stream", Alias: "C06.R3"},
-		},
+			{ID: "C02.S8", Doc: "a terminal call on an already terminated stream succeeds: the server does not give up the connection (and the next RPC) because a handler finished after its stream did (= C03.R12)", Alias: "C03.R12"},
+		}, disciplineRules("C02", "drpcmanager", "drpcconn", "drpcstream")...),
 	})
 }
 
